@@ -602,7 +602,7 @@ fn mk_enum(bits: u32, discs: &[u128], exhaustive: Exh, gated: Option<usize>, spe
         }
         _ => {}
     }
-    EnumDecl { name: "E".into(), bits, variants, exhaustive, colon: false, qualified: false }
+    EnumDecl { name: "E".into(), bits, variants, exhaustive, colon: false, qualified: false, args_swapped: false }
 }
 
 fn discs_with_max(count: u128, maxd: u128) -> Option<Vec<u128>> {
